@@ -53,7 +53,7 @@ theorem deVariant_tuple (n : List UInt8) (ts : TyList) (vs : VariantList) (i : N
     deVariant (.cons n (.tuple ts) vs) i name p =
       if n == name then
         (match p with
-         | some p => deTupleSeq ts p >>= fun d => pure (.variant i d)
+         | some p => deTupleLike ts p >>= fun d => pure (.variant i d)
          | none => .dataErr)
       else deVariant vs (i + 1) name p := by
   cases p <;> simp [deVariant]
@@ -234,7 +234,7 @@ theorem deVariant_np : ∀ (vs : VariantList) (i : Nat) (name : List UInt8) (p :
   | .cons n (.tuple ts) vs, i, name, p => by
     rw [deVariant_tuple]; split
     · cases p <;> simp
-      exact DeRes.bind_ne_panic (deTupleSeq_np' (deTupleVec_np ts) (deTupleList_np ts) _) fun _ => by simp
+      exact DeRes.bind_ne_panic (deTupleLike_np' (deTupleVec_np ts) (deTupleList_np ts) _) fun _ => by simp
     · exact deVariant_np vs _ _ _
   | .cons n (.struct fs) vs, i, name, p => by
     rw [deVariant_struct]; split
@@ -571,6 +571,11 @@ theorem deTupleSeq_vec_ok {ts : TyList} {vs : List Value} {ds : List Data}
     (h : deTupleVec ts vs = .ok ds) : deTupleSeq ts (Value.list vs) = .ok (.seq ds) := by
   rw [deTupleSeq_list]; simp [deTupleSeq, h]
 
+/-- the payload a tuple variant serialises to (a proper list) is read back by `deserialize_tuple` -/
+theorem deTupleLike_vec_ok {ts : TyList} {vs : List Value} {ds : List Data}
+    (h : deTupleVec ts vs = .ok ds) : deTupleLike ts (Value.list vs) = .ok (.seq ds) := by
+  rw [deTupleLike_list]; simp [deTupleLike, h]
+
 theorem rt_variant_succ {n : List UInt8} {var : Variant} {vs : VariantList} {i : Nat} {p : Data}
     (hnd : (VariantList.cons n var vs).names.Nodup)
     (ih : ∃ name pl, serVariant vs i p = some (variantValue name pl) ∧ name ∈ vs.names ∧
@@ -740,7 +745,7 @@ theorem rt_variant : ∀ (vs : VariantList) (i : Nat) (p : Data), WFVariants vs 
     rename_i ds
     obtain ⟨xs, hs, hd⟩ := rt_tuple ts ds wf.1 h
     exact ⟨n, some (Value.list xs), by simp [serVariant, variantValue, hs], by simp [VariantList.names],
-      fun k => by simp [deVariant_tuple, deTupleSeq_vec_ok hd]⟩
+      fun k => by simp [deVariant_tuple, deTupleLike_vec_ok hd]⟩
   | .cons n (.struct fs) vs, 0, p, wf, hnd, h => by
     simp only [WFVariants] at wf
     cases p <;> simp only [HasTyVariant] at h
@@ -1155,7 +1160,7 @@ theorem ty_variant (hidem : F32Idem) : ∀ (vs : VariantList) (k : Nat) (name : 
     · cases p <;> simp only [reduceCtorEq] at h
       obtain ⟨x, hx, h⟩ := DeRes.bind_eq_ok.mp h
       cases h
-      obtain ⟨ds, rfl, hds⟩ := tupleSeq_ty (fun xs ds hx => ty_tupleVec hidem ts xs ds wf.1 hx)
+      obtain ⟨ds, rfl, hds⟩ := tupleLike_ty (fun xs ds hx => ty_tupleVec hidem ts xs ds wf.1 hx)
         (fun o ds hx => ty_tupleList hidem ts o ds wf.1 hx) _ x hx
       exact ⟨0, .seq ds, rfl, by simpa [HasTyVariant] using hds⟩
     · exact ty_variant_succ (ty_variant hidem vs (k + 1) name p d wf.2 h)
@@ -1276,9 +1281,42 @@ theorem C14_accept_vector_for_seq (t : Ty) (xs : List Value) :
 theorem C14_accept_list_for_tuple (ts : TyList) (xs : List Value) :
     deTupleLike ts (Value.list xs) = deTupleLike ts (.vector xs) := deTupleLike_list ts xs
 
-/-- the same for the payload of a tuple variant -/
-theorem C14_accept_list_for_tuple_variant (ts : TyList) (xs : List Value) :
-    deTupleSeq ts (Value.list xs) = deTupleSeq ts (.vector xs) := deTupleSeq_list ts xs
+/-- a variant whose name does not match is skipped -/
+theorem deVariant_skip (n : List UInt8) (var : Variant) (vs : VariantList) (i : Nat) (name : List UInt8)
+    (p : Option Value) (hne : (n == name) = false) :
+    deVariant (.cons n var vs) i name p = deVariant vs (i + 1) name p := by
+  cases var
+  · rw [deVariant_unit, hne]; rfl
+  · rw [deVariant_newtype, hne]; rfl
+  · rw [deVariant_tuple, hne]; rfl
+  · rw [deVariant_struct, hne]; rfl
+
+/-- if the variant selected by `name` (the first one of that name, `VariantList.find`) is a tuple variant,
+    `deVariant` is `deserialize_tuple` on the payload (after the repair of `VariantAccess::tuple_variant`;
+    it was `deserialize_seq` = `deTupleSeq` before) -/
+theorem deVariant_find_tuple : ∀ (vs : VariantList) (k : Nat) (name : List UInt8) (j : Nat) (ts : TyList),
+    vs.find name k = some (j, .tuple ts) → ∀ p : Value,
+    deVariant vs k name (some p) = deTupleLike ts p >>= fun d => pure (.variant j d)
+  | .nil, _, _, _, _, h, _ => by simp [VariantList.find] at h
+  | .cons n var vs, k, name, j, ts, h, p => by
+    rw [VariantList.find] at h
+    by_cases hn : (n == name) = true
+    · rw [if_pos hn] at h
+      simp only [Option.some.injEq, Prod.mk.injEq] at h
+      obtain ⟨rfl, rfl⟩ := h
+      rw [deVariant_tuple, if_pos hn]
+    · rw [if_neg hn] at h
+      rw [deVariant_skip n var vs k name _ (by simpa using hn)]
+      exact deVariant_find_tuple vs (k + 1) name j ts h p
+
+/-- the same for the payload of a tuple variant.  (Restated after the repair of
+    `VariantAccess::tuple_variant`, which now goes through `deserialize_tuple`: the statement is about
+    `deVariant` selecting a tuple variant; it used to be about the helper `deTupleSeq`, which is no longer
+    what the tuple-variant arm calls.) -/
+theorem C14_accept_list_for_tuple_variant (vs : VariantList) (k : Nat) (name : List UInt8) (j : Nat)
+    (ts : TyList) (h : vs.find name k = some (j, .tuple ts)) (xs : List Value) :
+    deVariant vs k name (some (Value.list xs)) = deVariant vs k name (some (.vector xs)) := by
+  rw [deVariant_find_tuple vs k name j ts h, deVariant_find_tuple vs k name j ts h, deTupleLike_list]
 
 /-- **C14_reject_improper_seq**: an improper list is never accepted for a sequence. -/
 theorem C14_reject_improper_seq (t : Ty) (xs : List Value) (hxs : xs ≠ []) (tl : Value)
@@ -1291,6 +1329,48 @@ theorem C14_reject_improper_tuple (ts : TyList) (xs : List Value) (hxs : xs ≠ 
     (hnull : tl.isNull = false) (hcons : tl.isCons = false) :
     deTupleLike ts (Value.append xs tl) = .dataErr :=
   deTupleLike_improper ts tl ⟨hnull, hcons⟩ xs hxs
+
+/-- **C14_reject_improper_tuple_variant**: the rejection clause covers tuple variants (after the repair
+    of `VariantAccess::tuple_variant`).  If the variant selected by `name` (the first one of that name,
+    `VariantList.find`) is a tuple variant, an improper list as its items `(name x… . tl)` is a data
+    error — whatever the arity `ts`, the number of items (fewer, as many, or MORE than the arity: the
+    tail beyond the last item is seen too) and the non-list tail. -/
+theorem C14_reject_improper_tuple_variant (vs : VariantList) (k : Nat) (name : List UInt8) (j : Nat)
+    (ts : TyList) (h : vs.find name k = some (j, .tuple ts))
+    (xs : List Value) (hxs : xs ≠ []) (tl : Value) (hnull : tl.isNull = false) (hcons : tl.isCons = false) :
+    deVariant vs k name (some (Value.append xs tl)) = .dataErr := by
+  rw [deVariant_find_tuple vs k name j ts h, deTupleLike_improper ts tl ⟨hnull, hcons⟩ xs hxs]
+  rfl
+
+/-- the same at the entry point: `from_value::<E>` of `(name x… . tl)` -/
+theorem C14_reject_improper_tuple_variant_de (vs : VariantList) (name : List UInt8) (j : Nat) (ts : TyList)
+    (h : vs.find name 0 = some (j, .tuple ts))
+    (xs : List Value) (hxs : xs ≠ []) (tl : Value) (hnull : tl.isNull = false) (hcons : tl.isCons = false) :
+    de (.enum vs) (.cons (.symbol name) (Value.append xs tl)) = .dataErr := by
+  rw [de]; exact C14_reject_improper_tuple_variant vs 0 name j ts h xs hxs tl hnull hcons
+
+/-- `VecAccess` ignores surplus items -/
+theorem deTupleVec_append (ys : List Value) : ∀ (ts : TyList) (xs : List Value) (ds : List Data),
+    deTupleVec ts xs = .ok ds → deTupleVec ts (xs ++ ys) = .ok ds
+  | .nil, xs, ds, h => by simpa [deTupleVec] using h
+  | .cons t ts, [], ds, h => by simp [deTupleVec] at h
+  | .cons t ts, x :: xs, ds, h => by
+    rw [List.cons_append, deTupleVec]
+    rw [deTupleVec] at h
+    obtain ⟨d, hd, h⟩ := DeRes.bind_eq_ok.mp h
+    obtain ⟨ds', hds', h⟩ := DeRes.bind_eq_ok.mp h
+    simp only [DeRes.pure_eq, DeRes.ok.injEq] at h
+    simp [hd, deTupleVec_append ys ts xs ds' hds', h]
+
+/-- **C14_tuple_variant_surplus**: a PROPER list that is longer than the arity is still accepted for a
+    tuple variant, the surplus items being ignored (as for plain tuples): only the shape of the whole
+    payload is checked up front. -/
+theorem C14_tuple_variant_surplus (vs : VariantList) (k : Nat) (name : List UInt8) (j : Nat)
+    (ts : TyList) (h : vs.find name k = some (j, .tuple ts))
+    (xs ys : List Value) (ds : List Data) (hd : deTupleVec ts xs = .ok ds) :
+    deVariant vs k name (some (Value.list (xs ++ ys))) = .ok (.variant j (.seq ds)) := by
+  rw [deVariant_find_tuple vs k name j ts h, deTupleLike_vec_ok (deTupleVec_append ys ts xs ds hd)]
+  rfl
 
 /-- **C14_shape_seq**: sequences (and sets) serialise to proper lists. -/
 theorem C14_shape_seq (t : Ty) (ds : List Data) (v : Value) (h : ser (.seq t) (.seq ds) = some v) :
@@ -1453,14 +1533,27 @@ example : ser (.newtypeStruct (.option .bool)) .none = some .null ∧
 
 /-! ### other observations -/
 
-/-- the payload of a tuple variant is only checked for properness up to the arity: `(z #t #f . 5)` is
-    accepted for `z(bool)` while `(z #t . 5)` is not; a plain tuple rejects both -/
+/-- BEFORE the repair of `VariantAccess::tuple_variant` (which went through `deserialize_seq`, the helper
+    `deTupleSeq` of the model) the payload of a tuple variant was only checked for properness up to the
+    arity: `(z #t #f . 5)` was accepted for `z(bool)` while `(z #t . 5)` was not; a plain tuple rejects
+    both.  Kept as the witness of the defect of the unrepaired code (C14, rejection clause). -/
 example : deTupleSeq (.cons .bool .nil) (.cons (.bool true) (.cons (.bool false) (.number (.pos 5)))) =
       .ok (.seq [.bool true]) ∧
     deTupleSeq (.cons .bool .nil) (.cons (.bool true) (.number (.pos 5))) = .dataErr ∧
     deTupleLike (.cons .bool .nil) (.cons (.bool true) (.cons (.bool false) (.number (.pos 5)))) =
       .dataErr := by
   simp [deTupleSeq, deTupleList, deTupleLike, de, Value.isList, Value.isList.isListTail]
+/-- AFTER the repair (`deserialize_tuple`): the tuple-variant arm rejects both `(z #t #f . 5)` and
+    `(z #t . 5)` for `z(bool)`, and still accepts the proper over-long `(z #t #f)` -/
+example :
+    de (.enum (.cons [122] (.tuple (.cons .bool .nil)) .nil))
+      (.cons (.symbol [122]) (.cons (.bool true) (.cons (.bool false) (.number (.pos 5))))) = .dataErr ∧
+    de (.enum (.cons [122] (.tuple (.cons .bool .nil)) .nil))
+      (.cons (.symbol [122]) (.cons (.bool true) (.number (.pos 5)))) = .dataErr ∧
+    de (.enum (.cons [122] (.tuple (.cons .bool .nil)) .nil))
+      (.cons (.symbol [122]) (.cons (.bool true) (.cons (.bool false) .null))) =
+      .ok (.variant 0 (.seq [.bool true])) := by
+  simp [deVariant, deTupleList, deTupleLike, de, Value.isList, Value.isList.isListTail]
 /-- extra tuple elements are ignored, a unit variant ignores its payload, `Nil` is accepted for unit -/
 example : de (.tuple (.cons .bool .nil)) (.vector [.bool true, .null]) = .ok (.seq [.bool true]) ∧
     de (.enum (.cons [120] .unit .nil)) (.cons (.symbol [120]) (.bool true)) = .ok (.variant 0 .unit) ∧
@@ -1477,6 +1570,55 @@ example (d : Data) : de (.seq .bool) (Value.append [.bool true] (.number (.pos 1
   C14_reject_improper_seq _ _ (by simp) _ rfl rfl d
 example : deTupleLike (.cons .bool .nil) (Value.append [.bool true] (.number (.pos 1))) = .dataErr :=
   C14_reject_improper_tuple _ _ (by simp) _ rfl rfl
+
+/-- `enum E { T(u8, u8) }` -/
+def exTupleVariantTy : Ty := .enum (.cons [84] (.tuple (.cons (.int .u8) (.cons (.int .u8) .nil))) .nil)
+
+/-- `(T 168 255 9 . 7)` is a data error (it deserialized to `T(168, 255)` before the repair): by the theorem … -/
+example : de exTupleVariantTy
+    (.cons (.symbol [84]) (Value.append [.number (.pos 168), .number (.pos 255), .number (.pos 9)]
+      (.number (.pos 7)))) = .dataErr :=
+  C14_reject_improper_tuple_variant_de _ [84] 0 _ rfl _ (by simp) _ rfl rfl
+/-- … and by unfolding the model on this input (no theorem involved) -/
+example : de exTupleVariantTy
+    (.cons (.symbol [84]) (.cons (.number (.pos 168)) (.cons (.number (.pos 255)) (.cons (.number (.pos 9))
+      (.number (.pos 7)))))) = .dataErr := by
+  simp [exTupleVariantTy, de, deVariant, deTupleLike, Value.isList, Value.isList.isListTail]
+/-- the other improper payloads observed on the repaired code: `(T 168 255 . 7)`, `(T 168 255 T . 7)`,
+    `(T 168 . 255)` -/
+example :
+    de exTupleVariantTy (.cons (.symbol [84]) (.cons (.number (.pos 168)) (.cons (.number (.pos 255))
+      (.number (.pos 7))))) = .dataErr ∧
+    de exTupleVariantTy (.cons (.symbol [84]) (.cons (.number (.pos 168)) (.cons (.number (.pos 255))
+      (.cons (.symbol [84]) (.number (.pos 7)))))) = .dataErr ∧
+    de exTupleVariantTy (.cons (.symbol [84]) (.cons (.number (.pos 168)) (.number (.pos 255)))) = .dataErr := by
+  simp [exTupleVariantTy, de, deVariant, deTupleLike, Value.isList, Value.isList.isListTail]
+/-- the proper over-long payload `(T 168 255 9)` is still accepted (surplus item ignored), like `(T 168 255)`
+    and the vector payload `(T . #(168 255))`; the unrepaired arm (`deTupleSeq`) accepted `(T 168 255 9 . 7)` -/
+example :
+    de exTupleVariantTy (.cons (.symbol [84]) (Value.list [.number (.pos 168), .number (.pos 255),
+      .number (.pos 9)])) = .ok (.variant 0 (.seq [.int 168, .int 255])) ∧
+    de exTupleVariantTy (.cons (.symbol [84]) (Value.list [.number (.pos 168), .number (.pos 255)])) =
+      .ok (.variant 0 (.seq [.int 168, .int 255])) ∧
+    de exTupleVariantTy (.cons (.symbol [84]) (.vector [.number (.pos 168), .number (.pos 255)])) =
+      .ok (.variant 0 (.seq [.int 168, .int 255])) ∧
+    deTupleSeq (.cons (.int .u8) (.cons (.int .u8) .nil))
+      (Value.append [.number (.pos 168), .number (.pos 255), .number (.pos 9)] (.number (.pos 7))) =
+      .ok (.seq [.int 168, .int 255]) := by
+  simp [exTupleVariantTy, Value.list, Value.append, de, deVariant, deTupleLike, deTupleSeq, deTupleList, deTupleVec,
+    deNumber, IntTy.hi, Value.isList, Value.isList.isListTail]
+/-- the same through `C14_tuple_variant_surplus` -/
+example : deVariant (.cons [84] (.tuple (.cons (.int .u8) (.cons (.int .u8) .nil))) .nil) 0 [84]
+    (some (Value.list ([.number (.pos 168), .number (.pos 255)] ++ [.number (.pos 9)]))) =
+    .ok (.variant 0 (.seq [.int 168, .int 255])) :=
+  C14_tuple_variant_surplus _ 0 [84] 0 _ rfl _ _ _ (by simp [deTupleVec, de, deNumber, IntTy.hi])
+/-- an empty tuple variant `(ET)` -/
+example : de (.enum (.cons [69, 84] (.tuple .nil) .nil)) (.cons (.symbol [69, 84]) .null) =
+    .ok (.variant 0 (.seq [])) := by
+  simp [de, deVariant, deTupleLike, deTupleVec]
+example : deVariant (.cons [122] (.tuple (.cons .bool .nil)) .nil) 0 [122] (some (Value.list [.bool true])) =
+    deVariant (.cons [122] (.tuple (.cons .bool .nil)) .nil) 0 [122] (some (.vector [.bool true])) :=
+  C14_accept_list_for_tuple_variant _ 0 [122] 0 _ rfl _
 example : ∃ num, ser (.int .i16) (.int (-300)) = some (.number num) ∧ num = .neg (-300) := by
   obtain ⟨num, h, _, _, _, hneg, _⟩ := C14_shape_int .i16 (-300) (by simp [IntTy.lo]) (by simp [IntTy.hi])
   exact ⟨num, h, (hneg (by omega)).1⟩
